@@ -51,6 +51,31 @@ impl Engine for SmootherEngine {
                 // `panic N`: like `take N`, but the consumer panics while it still holds the iterator
                 // (the iterator is dropped during unwinding)
                 let panics = matches!(rest, ["panic", _]);
+                // `collect` / `extend`: the whole iterator, consumed the way Vec does it (size_hint included)
+                let how = rest.first().copied().unwrap_or("");
+                if how == "collect" || how == "extend" {
+                    let sm = match self.sm.as_mut() {
+                        Some(sm) => sm,
+                        None => return out.push("bad-op".into()),
+                    };
+                    let r = std::panic::catch_unwind(std::panic::AssertUnwindSafe(|| {
+                        if how == "collect" {
+                            sm.process(c).collect::<Vec<_>>()
+                        } else {
+                            let mut v = Vec::with_capacity(1);
+                            v.extend(sm.process(c));
+                            v
+                        }
+                    }));
+                    return match r {
+                        Ok(v) if v.is_empty() => out.push("out".into()),
+                        Ok(v) => out.push(format!("out {}", v.iter().map(show).collect::<Vec<_>>().join(" "))),
+                        Err(_) => {
+                            let _ = crate::take_last_panic();
+                            out.push("PANIC".into())
+                        }
+                    };
+                }
                 let take = match rest {
                     ["all"] => None,
                     ["panic", n] => match n.parse::<usize>() {
